@@ -138,7 +138,7 @@ theorem it_spec_charge {cfg : Cfg} {s : State} (hord : cfg.order = .initCharge) 
       rw [e_c, ← f2] at this
       exact this.toCore (by rw [hloop.lens.inits]; omega)
     refine ⟨⟨⟨hloop.lens.cfg_eq, hloop.lens.slots, hloop.lens.inits, by simp; exact hloop.lens.parents,
-      hloop.lens.secCounts, hloop.lens.counters⟩, ?_, ?_, ?_, ?_⟩, ?_, ?_, ?_, ?_⟩
+      hloop.lens.secCounts, hloop.lens.counters⟩, ?_, ?_, ?_, ?_, hloop.status⟩, ?_, ?_, ?_, ?_⟩
     · simp only [f3, e_c]
       exact core_frame hcoreF rfl rfl rfl rfl rfl rfl hcoreF.hasId
     · simp only [f3, e_c]; omega
@@ -155,7 +155,8 @@ theorem it_spec_charge {cfg : Cfg} {s : State} (hord : cfg.order = .initCharge) 
   · have hz : min s.c.numVacancies s.c.numInitializers = 0 := by omega
     simp only [hn, if_false]
     refine ⟨⟨⟨hL.cfg_eq, hL.slots, hL.inits, hL.parents, hL.secCounts, hL.counters⟩,
-      core_frame hC rfl rfl rfl rfl rfl rfl hC.hasId, hcap, hocc, by simp [hL.cfg_eq]⟩,
+      core_frame hC rfl rfl rfl rfl rfl rfl hC.hasId, hcap, hocc, by simp [hL.cfg_eq],
+      fun x hx => Or.inl (hst x hx)⟩,
       by simp [hz], by simp [hz], by trivial, by trivial⟩
 
 theorem itSpec_charge {cfg : Cfg} (hord : cfg.order = .initCharge) : ITSpec cfg :=
